@@ -7,6 +7,7 @@ CONSTANTS
   BO = 3
   IVALS <- IvOne
   ASIS = {"cancel"}
+  CIDS = {0}
   ENV = {"flip", "stop"}
 INVARIANT Inv
 PROPERTY Live
